@@ -375,6 +375,27 @@ func c04Binding(p *Program, r *Report, m *vmModel) {
 		}
 	}
 	r.Check(hasSet, "C04.R3", funcName(m.evalLet)+"|set-nearest-first", p.Pos(m.evalLet.Pos()), "plain assignment first tries SetValue on the current scope chain", "plain assignment never updates an existing enclosing binding: it always defines in the current block")
+	// declaring forms (var, loop variables, catch variable, module, function name and parameters) bind in the current scope:
+	// they never go through the assignment dispatcher, which would update an enclosing binding of the same name
+	aa := newAddrAnalysis(m, nil, nil)
+	decl := c10HandlerSet(m, aa, "VarStmt", "ForStmt", "TryStmt", "ModuleStmt", "FuncExpr")
+	var dfns []*ssa.Function
+	for fn := range decl {
+		dfns = append(dfns, fn)
+	}
+	sort.Slice(dfns, func(i, j int) bool { return funcName(dfns[i]) < funcName(dfns[j]) })
+	for _, fn := range dfns {
+		bad := ""
+		for _, b := range fn.Blocks {
+			for _, in := range b.Instrs {
+				if c, ok := in.(*ssa.Call); ok && staticCallee(c) == m.evalLet {
+					bad = p.Pos(c.Pos())
+				}
+			}
+		}
+		nBind++
+		r.Check(bad == "", "C04.R3", funcName(fn)+"|declares, never assigns", p.Pos(fn.Pos()), "binds with DefineValue only", "a declaring form ("+decl[fn]+") binds through the assignment dispatcher at "+bad+": when an enclosing scope already has the name, that outer binding is overwritten instead of a new one being made")
+	}
 	r.Floor("C04.R3", nBind, 10)
 }
 
